@@ -705,3 +705,84 @@ contract(
         "InUnit(self.training_samples.samples[i]['x']))",
     ] + rows_ok("training_samples", "1"),
 )
+
+# ---- resume: the density tables are not pickled (save_log_q=False) and are
+# ---- re-derived from the saved proposals -- for the right samples -------------
+shape("OrderedSamplesPickled", {"samples": INS_ARR,
+                                "log_q": "Opt(Tbl(QRow))"})
+_S["ISProposalC03"].methods.update({
+    "resume": Contract(
+        "<abstract>", "ImportanceFlowProposal.resume",
+        params={"model": "Any", "flow_config": "Any", "weights_path": "Any"},
+        trusted=True, trusted_reason="reloads the saved flows (C11 / C12); "
+        "ASSUMED to restore the proposals the checkpoint was written with "
+        "(weights, level count, number of flows unchanged)", modifies=[]),
+})
+shape("INSPickled", {
+    "_previous_likelihood_evaluations": "Int",
+    "_previous_likelihood_evaluation_time": "Real",
+    "model": "Any", "resumed": "Bool", "checkpoint_callback": "Any",
+    "iteration": "Int", "draw_iid_live": "Bool",
+    "proposal": "Obj(ISProposalC03)",
+    "training_samples": "Obj(OrderedSamplesPickled)",
+    "iid_samples": "Opt(Obj(OrderedSamplesPickled))",
+}, cls="ImportanceNestedSampler")
+shape("INSCls", {}, cls="ImportanceNestedSampler", methods={
+    "add_fields": Contract("<abstract>", "ImportanceNestedSampler.add_fields",
+                           trusted=True, trusted_reason="registers the extra "
+                           "live-point fields (C18's registry)"),
+})
+SP = "sampler.proposal._weights"
+
+
+def recomputed(store):
+    S, Q = f"sampler.{store}.samples", f"sampler.{store}.log_q"
+    return [
+        f"{Q} is not None", f"len({Q}) == len({S})",
+        f"forall(i, 0, len({S}), ncol({Q}[i]) == len({SP}))",
+        f"forall(i, 0, len({S}), col({Q}[i], 0) == 0)",
+        # the re-derived densities are the saved proposals evaluated at THIS
+        # store's samples
+        f"forall2(i, len({S}), j, len({SP}), implies(j >= 1, "
+        f"col({Q}[i], j) == LPX(j - 1, Rf({S}[i]['x'])) + "
+        f"RJ({S}[i]['x'])))",
+    ]
+
+
+contract(
+    "nessai/samplers/base.py", "BaseNestedSampler.resume_from_pickled_sampler",
+    variant_name="c03", props=["C03"], trusted=True, verify=False,
+    trusted_reason="the contract proved for it under C12 (model re-attached, "
+    "evaluation counters continued, the pickled sampler itself returned), "
+    "restated as a frame for this caller",
+    params={"sampler": "Any", "model": "Any", "checkpoint_callback": "Any"},
+    modifies=["sampler.model", "sampler.resumed", "sampler.checkpoint_callback",
+              "sampler._previous_likelihood_evaluations",
+              "sampler._previous_likelihood_evaluation_time"],
+    returns_param="sampler",
+)
+contract(
+    INS, "ImportanceNestedSampler.resume_from_pickled_sampler",
+    variant_name="c03",
+    props=["C03", "C12"], self_shape="INSCls", log_domain=True,
+    params={"sampler": "Obj(INSPickled)", "model": "Obj(ModelCnt)",
+            "flow_config": "Opt(Any)", "weights_path": "Any",
+            "**kwargs": {}},
+    requires=[
+        f"sampler.proposal.flow.n_models == len({SP}) - 1",
+        f"len({SP}) >= 2", f"sampler.proposal.level_count == len({SP}) - 2",
+        f"forall(p, 0, len({SP}), not isnan({SP}[p - 1]))",
+        "forall(k, 0, len(sampler.proposal.flow.models), "
+        "not sampler.proposal.flow.models[k]['training'])",
+        # (tables that WERE pickled are left alone)
+        "sampler.training_samples.log_q is None",
+        "implies(sampler.iid_samples is not None, "
+        "sampler.iid_samples.log_q is None)",
+    ],
+    modifies=["sampler", "model"],
+    may_raise={"ValueError": None},
+    returns="Any",
+    ensures=recomputed("training_samples")
+    + ["implies(sampler.iid_samples is not None, " + e + ")"
+       for e in recomputed("iid_samples")],
+)
